@@ -144,6 +144,7 @@ class Recorder:
         self.fault_seen = False
         self.known = known or []
         self.known_hits = []
+        self.scrub = []                # run-private strings (temp dirs) kept out of transcripts
 
     def want(self, prop):
         return prop in self.props
@@ -152,6 +153,8 @@ class Recorder:
         self.event_index, self.event_kind = index, event[0]
 
     def log(self, text):
+        for s in self.scrub:
+            text = text.replace(s, '<DIR>')
         self.lines.append(f'{self.event_index} {self.event_kind} -> {text}')
 
     def fault(self, kind, n=1):
